@@ -13,6 +13,26 @@ import (
 func C05(r *ev.Run) {
 	r.SetRule(ruleRuns + "the run contains a decision followed by further API calls before Reset, or a re-initialisation that replayed cached payloads, or a validator-set change")
 	plan := []Plan{{"valset", 1200, 50000}, {"async-benign", 900, 40000}, {"byz", 500, 20000}, {"missing-tx", 300, 10000}, {"sync-perm", 1000, 30000}}
+	if Only < 0 {
+		// scripted scenario (and seeded variations) of a decision the node did not vote for, followed by
+		// every kind of late event before Reset
+		rng := rand.New(rand.NewSource(r.Seed + 5))
+		for i := 0; i < r.Pick(200, 4000); i++ {
+			m := mon.NewOnce()
+			var b *Built
+			if i == 0 {
+				b = DirectedLateEvents(nil, m)
+			} else {
+				b = DirectedLateEvents(rng, m)
+			}
+			Report(r, b, m.Viols)
+			Account(r, b, m.Cnt)
+			if len(b.C.Nodes[1].Accepted) > 0 {
+				r.Count("late-event-scenarios-decided-without-own-vote", 1)
+				r.Distinct(mon.AbstractTrace(b.C))
+			}
+		}
+	}
 	protoCheck(r, plan, func() (vnet.Monitor, func() ([]mon.V, map[string]int64)) {
 		m := mon.NewOnce()
 		return m, func() ([]mon.V, map[string]int64) { return m.Viols, m.Cnt }
@@ -28,6 +48,7 @@ func C05(r *ev.Run) {
 	r.Floor("future-payloads-checked", 2000)
 	r.Floor("future-payloads-while-decided", 200)
 	r.Floor("runs:valset", 100)
+	r.Floor("late-event-scenarios-decided-without-own-vote", 100)
 }
 
 func C12(r *ev.Run) {
